@@ -1,6 +1,7 @@
 package rules
 
 import (
+	"go/ast"
 	"strconv"
 	"fmt"
 	"go/token"
@@ -652,6 +653,19 @@ func c11Panics(c *eng.Ctx, r *eng.Report) {
 				n++
 				name := eng.FuncName(fn)
 				reason, ok := reviewedPanics[name]
+				if !ok {
+					// the panic moved one level down: an unexported helper whose every caller is a reviewed function
+					callers := c.Callers(fn)
+					inherited := len(callers) > 0 && !ast.IsExported(fn.Name())
+					for _, site := range callers {
+						if rr, isR := reviewedPanics[eng.FuncName(site.Fn)]; isR {
+							reason = rr + " (in helper " + fn.Name() + ")"
+						} else {
+							inherited = false
+						}
+					}
+					ok = inherited
+				}
 				r.Check(ok, rule, "panic:"+name, c.Pos(in.Pos()), "reviewed panic: "+reason, "explicit panic reachable from EVM.Call/Create ("+cone.PathTo(fn)+") is not in the reviewed table; there is no recover() in vm/executor/core, so it crashes the node")
 			}
 		}
